@@ -554,8 +554,27 @@ func (e *Enc) alloc(st *State) T {
 // sliceElemPtr returns a pointer to element i of slice s (no bounds obligation here).
 func (e *Enc) sliceElemPtr(s Val, i T) Val {
 	elem := s.Typ.Underlying().(*types.Slice).Elem()
-	idx := e.addIdx(s.L[1], i)
+	idx := e.elemIndex(s.L[1], i)
 	return Val{Typ: types.NewPointer(elem), L: []T{s.L[0]}, P: &PtrInfo{Space: "E", Root: elem, Prefix: "[]", Idxs: []T{idx}}}
+}
+
+// elemIndex is the backing-array index of element i of a slice starting at off. With Int
+// indices it is wrapped in the function symbol ix (axiom: ix(o,i) = o+i, instantiated per term)
+// so that quantified facts about s[i] match syntactically in the solvers' E-matching instead of
+// depending on how `off + i` gets normalised.
+func (e *Enc) elemIndex(off, i T) T {
+	if off.E == IntLit64(off.S, 0).E {
+		return i
+	}
+	if off.S.K != SInt {
+		return e.addIdx(off, i)
+	}
+	if !e.ufDecl["ix"] {
+		e.ufDecl["ix"] = true
+		e.emit("(declare-fun ix (Int Int) Int)")
+		e.emit("(assert\t(forall ((ixo Int) (ixi Int)) (! (= (ix ixo ixi) (+ ixo ixi)) :pattern ((ix ixo ixi)))))")
+	}
+	return T{IntS, app("ix", off.E, i.E)}
 }
 
 func (e *Enc) addIdx(a, b T) T {
